@@ -21,17 +21,20 @@ CFG = {
                   "and with the materialised route forced (jq: verif-hooks switch on can_use_lazy_path and, for identity, "
                   "the neutral spelling `(.)|.`; yq: an unused --arg, which disables the M2 streaming fast paths); stdout and "
                   "exit code must be identical. Lean: in the printer model the streaming printer over a cursor "
-                  "(first_child / next_sibling / value) equals the printer over the owned value (stream_eq_materialise).",
+                  "(first_child / next_sibling / value) equals the printer over the owned value (stream_eq_materialise); the three jq routes of the model print identical "
+                  "bytes for every well-formed value and option set without --preserve-input (routes_agree).",
     "level_note": "The two evaluators are not modelled; the tie is differential. Classes other than `core` inject one "
-                  "presentation feature each and are the class predicates of the recorded findings.",
+                  "presentation feature each and are the class predicates of the recorded findings; `--indent 0` and raw "
+                  "DEL (repaired findings) are part of `core`. Under --preserve-input only the neutral spelling is compared.",
     "technique": "differential run of the CLI routes + Lean structural-induction theorem on the printer model",
     "variants": [{"features": [], "env": {"SV_CLI": _CLI}}],
     "needs_cli": True,
     "lean_modules": ["SuccinctlyVerif.Props.C27"],
-    "lean_files": ["SuccinctlyVerif/Props/C27.lean", "SuccinctlyVerif/Proof/JqCursor.lean",
+    "lean_files": ["SuccinctlyVerif/Props/C27.lean", "SuccinctlyVerif/Proof/JqCursor.lean", "SuccinctlyVerif/Proof/JqOutput.lean",
                    "SuccinctlyVerif/Model/JqOutput.lean"],
     "generated": [],
-    "required_theorems": ["SV.Props.C27.stream_eq_materialise", "SV.Props.C27.stream_at_path"],
+    "required_theorems": ["SV.Props.C27.stream_eq_materialise", "SV.Props.C27.stream_at_path",
+                          "SV.Props.C27.routes_agree"],
     "canon": _canon,
     "nontrivial": _nontrivial,
     "rule": "request = (tool, flags, program, 1-12 documents) run on 2-3 routes; distinct request lines with non-empty output",
